@@ -337,6 +337,13 @@ def havoc_location(locn):
 def make_stub(C: Contract, raw_fn):
     def stub(*args, **kwargs):
         c = sym.ctx()
+        prev_mode = c.ghost.get("mode", "claim")
+        try:
+            return _stub_body(c, args, kwargs)
+        finally:
+            c.ghost["mode"] = prev_mode
+
+    def _stub_body(c, args, kwargs):
         USED_STUBS.add(C.fn)
         bound = _bind(raw_fn, args, kwargs)
         ghosts = C.ghost_names(raw_fn)
@@ -368,6 +375,7 @@ def make_stub(C: Contract, raw_fn):
                 c.notes.append(f"requires of {C.fn} not evaluable: {e!r}")
             c.check(v, f"call-pre:{C.fn}#{i}", kind="call-pre", callee=C.fn)
             c.assume(v)
+        c.ghost["mode"] = "assume"
         if C.old is not None:
             env["old"] = call_by_name(C.old, env)
         for exc_t, when in C.raises:
@@ -548,8 +556,10 @@ def explore_case(C: Contract, case_idx: int, case: Dict[str, Shape], max_paths=N
                 state["args"] = {k: (v.copy() if hasattr(v, "havoc_inplace") else v) for k, v in args.items()}
                 c.ghost["caller_contract"] = C
                 c.ghost["caller_args"] = args
+                c.ghost["mode"] = "assume"
                 for r in C.requires:
                     c.assume(call_by_name(r, args))
+                c.ghost["mode"] = "claim"
                 env = dict(args)
                 if C.old is not None:
                     env["old"] = call_by_name(C.old, args)
